@@ -25,3 +25,40 @@ package ssa2ast
 //@   must_read ssa.Store: Addr, Val
 //@   must_read ssa.Phi: Edges
 //@ end
+
+// ---- C11: calls are translated with their variadic spread ----
+// go/ssa always packs variadic arguments into one slice value, so the emitted call must end in "..."
+// whenever the callee's signature (function, closure, builtin or interface method) is variadic. (The
+// converse, no "..." on other calls, would need the frame of a call through a function-valued field;
+// a spurious "..." does not compile, so it cannot change behaviour silently.)
+
+//@ func (*funcConverter).convertCall
+//@   property C11
+//@   skip safety call-requires
+//@   ensures @variadic-calls-spread-their-packed-argument: r1 == nil ==> r0 != nil && (callCommon.Signature().Variadic() ==> r0.Ellipsis != 0)
+//@   ensures @error-yields-no-call: r1 != nil ==> r0 == nil
+//@ end
+
+//@ func (*funcConverter).convertSsaValue
+//@   property C11
+//@   trusted translates one SSA value into an expression; creates syntax nodes and changes only the converter's own bookkeeping (never a node it did not create)
+//@   assigns pointee(fc)
+//@ end
+
+//@ func (*funcConverter).getAnonFunctionName
+//@   property C11
+//@   trusted looks the function up among the converter's anonymous functions
+//@   assigns pointee(fc)
+//@ end
+
+//@ func (*funcConverter).getThunkMethodCall
+//@   property C11
+//@   trusted builds the method expression for a $thunk wrapper
+//@   assigns pointee(fc)
+//@ end
+
+//@ func (*TypeConverter).Convert
+//@   property C11
+//@   trusted translates a go/types type into a type expression; creates syntax nodes only
+//@   assigns pointee(tc)
+//@ end
